@@ -5,7 +5,7 @@ ID = 'C03'
 FMT = 'tokenized'
 PROGRAMS = rtlib.PROGRAMS
 UNIT_CAP = 300
-BUDGET_S = {'quick': 270, 'thorough': 2400}
+BUDGET_S = {'quick': 600, 'thorough': 1200}      # wall-clock safety caps (exceeding one is reported as inconclusive); typical quick runs take 1-200 s
 SP = ' /\\'
 BOUNDS = {
     'quick': {'write_parse': 'text <=3 chars over all scalar values (delimiter classes + every other value per UTF-8 width), labels {WB,NB}^(n-1); '
